@@ -139,12 +139,15 @@ def eq(a, b, name):
     return Z.prove_equal(a, b, name=name, timeout_ms=15000)[0] == "unsat"
 
 
+GRID_EXTRA = [0]      # thorough tier: a longer volume / pressure grid
+
+
 def check_case(chk, st, tr, F, interp, with_table, system, cell_opt, rng, sample_mult=None):
     name = "mode=%s%s%s%s%s" % (interp, ", table" if with_table else ", no table", ", system=%s" % system if system else "", ", --cellmass" if cell_opt else "",
                                ", --delta-p-sample = %d x --delta-p" % sample_mult if sample_mult else "")
     keys = ["c11", "c12", "c44"] if system == "cubic" else ["c11", "c22", "c33", "c12", "c13", "c23", "c44", "c55", "c66"]
     env = Env(with_table, keys, cell_opt)
-    ntv = 5 if sample_mult else 4
+    ntv = (5 if sample_mult else 4) + GRID_EXTRA[0]
     p_min, dp = 2.0, 3.0
     mult = sample_mult or 1
     t0 = time.time()
@@ -437,6 +440,7 @@ def main():
     chk.encode(st.main.callback)
     Z.reset_log()
     rng = random.Random(seed() + 18)
+    GRID_EXTRA[0] = 0 if tier == "quick" else 3
     cases = [("none", True, None, False), ("volume", True, None, False), ("pressure", True, None, False),
              ("pressure", False, None, False), ("volume", True, "cubic", True), ("volume", False, "cubic", True)]
     if tier != "quick":
